@@ -34,6 +34,8 @@ def definitions(rng, sz):
         for mask in itertools.product([0, 1], repeat=n):
             defs.append(IG.shape(rng, did, n, mask, generics=rng.choice(["none", "none", "ty", "const", "tywhere", "tyconst", "tydef", "constdef"]) if n else "none"))
             did += 1
+    defs.append(IG.selfref_def(did)); did += 1
+    defs.append(IG.selfref_def(did)); did += 1          # once with, once without the decoys (they go by parity)
     for k in range(sz["sampled"]):
         n = rng.randint(sz["full_masks"] + 1, 12)
         mask = [1 if rng.random() < 0.35 else 0 for _ in range(n)]
